@@ -40,7 +40,7 @@ PARTIAL = ["not Lean theorems here (checked by the independent predicate on the 
            "rectangular alignment with at least one column",
            "Split re-interleaving is proved for tables that are well formed (PartInv: preserved by every AddRange, theorem "
            "addRange_partInv) and total (what CheckSites tests); a partial table is outside the statement",
-           "CLI glue of cmd/subseq, subsites, split, extract is exercised on the built binary only for the --ref-seq path"]
+           "CLI glue: cmd/subseq (--ref-seq, exact bytes; multi-alignment inputs), cmd/subsites and transpose (multi-alignment inputs = alignments one by one) are exercised on the built binary; cmd/split and cmd/extract only through C11's determinism runs"]
 
 NT = "ACGT"
 
